@@ -290,6 +290,7 @@ class Harness:
         m.fractions = MonList([f0], "fractions", mut)
         tr.mut, tr.mineral, tr.snap0 = mut, m, (O0, f0, getattr(O0, "writes", 0), getattr(f0, "writes", 0))
         self.attr_before = {k: v for k, v in m.__dict__.items()}
+        tr.attr_before = dict(self.attr_before)
 
         # ---- parameters
         phis = tuple(sym(f"phi{k}{sfx}") for k in range(len(self.assemblage)))
@@ -336,6 +337,7 @@ class Harness:
             raise
         except Exception as ex_:
             tr.exc = ex_
+        tr.sums = dict(sg.sums) if sg is not None else {}
         return tr
 
     def explore(self, hyps=(), max_paths=64):
